@@ -24,7 +24,7 @@ var probeNames = []string{"query_present", "query_with_slash", "query_with_track
 	"userinfo_present", "ipv6_authority", "hostname_authority", "record_variant", "control_relative", "control_absolute",
 	"control_query_style", "control_leading_slash", "content_base_absent", "session_level_control", "setup_subset_or_permuted",
 	"script_completed", "media_identity_checked", "keepalive_observed", "authenticated_retry", "raw_path_kept", "udp_transport",
-	"control_empty_or_star", "base_other_host", "content_base_relative", "request_lines_checked"}
+	"control_empty_or_star", "base_other_host", "content_base_relative", "request_lines_checked", "tunnel_http", "tunnel_ws"}
 
 func us(n int) time.Duration { return time.Duration(n) * time.Microsecond }
 
@@ -193,6 +193,24 @@ func checkHandlerURLs(w *sys.World, sc *Scenario, h *sys.Handler) (bool, map[str
 // checkRequestLines: no request line written by the client carries the
 // credentials of the URL.
 func checkRequestLines(w *sys.World, sc *Scenario, tp *wireTap) []wireReq {
+	if sc.Tunnel != "" {
+		// HTTP requests / base64 blocks / WebSocket messages: not parsed; the credentials must
+		// not occur anywhere in what the client wrote (the tunnel's own request line included)
+		w.Probe("tunnel_" + sc.Tunnel)
+		w.Probe("request_lines_checked")
+		tp.mu.Lock()
+		buf := string(tp.buf)
+		tp.mu.Unlock()
+		if sc.Tunnel == "http" {
+			for _, tok := range []string{sc.User, sc.Pass, sc.UserDec, sc.PassDec} {
+				if tok != "" && strings.Contains(buf, tok) {
+					w.Fail("c20/credentials request-line", "the bytes written through the HTTP tunnel contain %q of the URL's user-info (%s:%s) in clear", tok, sc.User, sc.Pass)
+					break
+				}
+			}
+		}
+		return nil
+	}
 	reqs, ok := tp.requests()
 	if !ok {
 		w.Fail("c20/harness wire-parse", "the byte stream written by the client cannot be parsed into RTSP messages")
@@ -314,6 +332,12 @@ func runLib(w *sys.World, sc *Scenario, summary *map[string]any) {
 			p = gortsplib.ProtocolUDP
 		}
 		c.Protocol = &p
+		switch sc.Tunnel {
+		case "http":
+			c.Tunnel = gortsplib.TunnelHTTP
+		case "ws":
+			c.Tunnel = gortsplib.TunnelWebSocket
+		}
 		sys.WireClient(c, cliNode, w.Net, tp.tap)
 		c.OnDecodeError = func(err error) {
 			mu.Lock()
